@@ -45,6 +45,9 @@ CHECKS = {
  'C08': dict(engine='cases', tech='TLA+ islands for Hermitian (generalised) eigenproblems (spec/EigSolve.tla on LinSolve.tla: exact TT cores of A = G^H G + 2I or G + G^H, B = C^H C + I, full-rank guesses at every admissible rank profile; Hermitian-ness checked by TLC); replay of evp.als / evp.power_method with the Ritz-pair contract',
              text='TLC enumerates sizes, ranks, definite/indefinite, standard/generalised, real/complex and all guess rank profiles and builds the exact cores; the real solver must report the Rayleigh quotient of the returned unit-norm tensor, stay below lambda_max, never move away from its target over sweeps, keep an exact dominant eigentensor, be exact at maximal ranks, agree with the explicitly shifted operator under deflation (1 and 2 tensors) and the power iteration must converge to the pair nearest its shift.',
              note='trusted: TLC core algebra; scipy.linalg.eigh of the exact dense pencil as numeric evaluator; eigen-clauses only where the eigenvalue is separated', ref='§5 C08'),
+ 'C09': dict(engine='cases', tech='TLA+ scheme tables (spec/OdeSchemes.tla: each integrator as a linear recurrence with rational polynomial coefficients incl. the HOD start-up; exact squared estimator values; Markov and generic islands with exact TT cores) + controller state machine spec/Adaptive.tla model-checked by TLC (invariants + termination) + Trace_Adaptive.tla validating recorded accepted time points; replay of the integrators',
+             text='TLC enumerates islands, schemes, step lists, HOD orders and computes exact estimator squares; every step of every returned trajectory must satisfy the scheme recurrence given by the spec polynomial table (ALS and MALS, both micro-solvers, normalisation 0/1/2), lists have steps+1 entries headed by the initial value, inputs keep their value; the adaptive controller is model checked for all outcomes of the trial solves and the recorded time points of real runs are validated against its Accept guard.',
+             note='trusted: TLC, numpy matrix polynomials for applying the spec tables, dyadic steps with |hA| <= 1', ref='§5 C09'),
 }
 NA_REASON = 'check not built yet (work in progress)'
 
